@@ -134,7 +134,7 @@ def run(ctx):
     ctx.require_count("R12.1", 2)
     ctx.require_count("R12.2", 16)
     ctx.require_count("R12.3", 3)
-    ctx.require_count("R12.5", 7)
+    ctx.require_count("R12.5", 8)
 
 
 def mean_method_rules(ctx, p, f_eq, fmax, power, nb):
@@ -185,6 +185,23 @@ def mean_method_rules(ctx, p, f_eq, fmax, power, nb):
     ctx.expect(okr, "R12.5", tag + "[scan start]", "the scan starts at the bin closest to 0 Hz", f_eq.loc(), derived=rng)
     V = sp.Symbol("criterion_table")
     IM = sp.Symbol("selected_start")
+    # every spectrum of the batch is averaged over *its own* window: the window starts are flattened in C order, so the batch
+    # positions they are paired with must be enumerated in C order too - np.unravel_index(arange(n), shape) - and not, e.g., by a
+    # flattened np.meshgrid (whose default 'xy' indexing walks the first two axes column-major)
+    unr = [u for t in terms for u in T.find_ops(t, "unravel_index")]
+    mesh = [u for t in terms for u in T.find_ops(t, "meshgrid")] + [u for t in terms for u in T.find_ops(t, "ext_numpy_meshgrid")]
+    mesh = [u for u in mesh if not any(isinstance(a, sp.Tuple) and len(a.args) == 2 and a.args[0] == Str("indexing") and a.args[1] == Str("ij")
+                                       for a in u.args)]
+    if mesh:
+        ctx.bad("R12.5", tag + "[batch positions]", "the batch positions are enumerated with np.meshgrid (column-major for the first two "
+                "axes under the default indexing) while the selected window starts are flattened in C order: in a batch with two or more "
+                "leading dimensions a spectrum is averaged over another spectrum's window", f_eq.loc(), derived=T.show(mesh[0], 160))
+    elif unr:
+        oku = all((len(u.args) < 3 or u.args[2] == Str("C")) for u in unr)
+        ctx.expect(oku, "R12.5", tag + "[batch positions]", "batch positions come from unravel_index in C order, like the flattened window starts",
+                   f_eq.loc(), derived=T.show(unr[0], 160))
+    else:
+        ctx.unsure("R12.5", tag + "[batch positions]", "enumeration of the batch positions not recognised", f_eq.loc())
     for nm, t, arr in zip(("e", "a1", "b1"), terms, (S, dsv("a1"), dsv("b1"))):
         t2 = t.xreplace({tab: V})
         sel = [a for a in T.find_ops(t2, "argmin") if V in a.free_symbols]
